@@ -2,7 +2,15 @@
 """gen_facts.py — fail-closed translator: regenerates, from /repo's *source text* (ast only, the
 package is not imported), the finite tables the theorems quantify over.  Output: coq/theories/gen/*.v.
 A construct the patterns below do not recognise is an error (exit 2), never silently skipped.
-Files are rewritten only when their content changes (so make does not rebuild needlessly)."""
+Files are rewritten only when their content changes (so make does not rebuild needlessly), and nothing is
+written unless every table translated.
+
+  CropCatalogue.v  crop_params dict + Crop.__init__ defaults + CO2 reference concentration
+  StateFields.v    fields of InitialCondition, what reset_initial_conditions / read_model_initial_conditions assign
+  StoreSites.v     every syntactic store whose root is a parameter / module-level name (alias rules: see `Store sites`)
+
+usage: gen_facts.py [--out DIR] [--only File.v,File.v]     env VERIF_REPO=<root of the source tree> (default /repo)
+self-test: harness/tests_gen_facts.py [--coq]"""
 import ast, os, sys, decimal, json
 
 VERIF = os.path.dirname(os.path.dirname(os.path.abspath(__file__)))
@@ -140,23 +148,1548 @@ def crop_catalogue():
     return "\n".join(out), {"crops": len(crops), "fields": len(numeric)}
 
 
-GENERATORS = {"CropCatalogue.v": crop_catalogue}
+# =========================================================================================
+#  StateFields.v  /  StoreSites.v
+# =========================================================================================
+import builtins as _builtins
+import glob as _glob
+
+import warnings as _warnings
+
+PY_BUILTINS = set(dir(_builtins))
 
 
-def main():
-    os.makedirs(OUT, exist_ok=True)
+def _parse(text):
+    with _warnings.catch_warnings():
+        _warnings.simplefilter("ignore")      # e.g. invalid escape sequences in the package's string literals
+        return ast.parse(text)
+
+
+def coq_str(s):
+    if not isinstance(s, str):
+        raise TranslatorError("coq_str: not a string")
+    if any(ord(c) < 32 or ord(c) > 126 for c in s):
+        raise TranslatorError("non-printable / non-ASCII character in generated string: %r" % s)
+    return '"' + s.replace('"', '""') + '"'
+
+
+def coq_str_list(name, items, comment=None):
+    out = []
+    if comment:
+        out.append("(* %s *)" % comment)
+    if not items:
+        out.append("Definition %s : list string := []." % name)
+    else:
+        out.append("Definition %s : list string := [" % name)
+        out.append(";\n".join("  " + coq_str(i) for i in items))
+        out.append("].")
+    return out
+
+
+def comment_safe(s):
+    s = " ".join(s.split())
+    s = s.replace("(*", "( *").replace("*)", "* )").replace('"', "'")
+    return s if len(s) <= 110 else s[:107] + "..."
+
+
+def find_class(tree, name, where):
+    cls = [n for n in tree.body if isinstance(n, ast.ClassDef) and n.name == name]
+    if len(cls) != 1:
+        raise TranslatorError("%s: expected exactly one class %s, found %d" % (where, name, len(cls)))
+    return cls[0]
+
+
+def find_function(body, name, where):
+    fs = [n for n in body if isinstance(n, ast.FunctionDef) and n.name == name]
+    if len(fs) != 1:
+        raise TranslatorError("%s: expected exactly one def %s, found %d" % (where, name, len(fs)))
+    return fs[0]
+
+
+def _no_dynamic(node, where):
+    """global / nonlocal / exec / eval / globals() anywhere below node -> error"""
+    for n in ast.walk(node):
+        if isinstance(n, (ast.Global, ast.Nonlocal)):
+            raise TranslatorError("%s: `%s` statement (line %d)" % (where, type(n).__name__.lower(), n.lineno))
+        if isinstance(n, ast.Call) and isinstance(n.func, ast.Name) and n.func.id in FORBIDDEN_CALLS:
+            raise TranslatorError("%s: call of %s() (line %d)" % (where, n.func.id, n.lineno))
+
+
+FORBIDDEN_CALLS = {"exec", "eval", "compile", "globals", "locals", "vars", "__import__", "breakpoint"}
+
+
+def attr_targets_on(node, roots, where):
+    """Names of attributes assigned (plain, augmented, annotated, tuple/for/with targets, setattr with a
+    literal name) on an object called one of `roots`, anywhere below `node`, in source order.
+    Stores *below* an attribute (x.a[i] = .., x.a.b = ..) are not assignments of x.a and are skipped here
+    (they are StoreSites rows).  setattr with a computed name on one of the roots is an error."""
+    found = []
+
+    def tgt(t):
+        if isinstance(t, ast.Attribute):
+            if isinstance(t.value, ast.Name) and t.value.id in roots:
+                found.append((t.lineno, t.col_offset, t.attr))
+        elif isinstance(t, (ast.Tuple, ast.List)):
+            for e in t.elts:
+                tgt(e)
+        elif isinstance(t, ast.Starred):
+            tgt(t.value)
+        elif isinstance(t, (ast.Name, ast.Subscript)):
+            pass
+        else:
+            raise TranslatorError("%s: unrecognised assignment target %s (line %d)" % (where, type(t).__name__, t.lineno))
+
+    for n in ast.walk(node):
+        if isinstance(n, ast.Assign):
+            for t in n.targets:
+                tgt(t)
+        elif isinstance(n, (ast.AugAssign, ast.AnnAssign)):
+            tgt(n.target)
+        elif isinstance(n, (ast.For, ast.comprehension)):
+            tgt(n.target)
+        elif isinstance(n, ast.With):
+            for it in n.items:
+                if it.optional_vars is not None:
+                    tgt(it.optional_vars)
+        elif isinstance(n, ast.NamedExpr):
+            tgt(n.target)
+        elif isinstance(n, ast.Call):
+            f = n.func
+            is_setattr = isinstance(f, ast.Name) and f.id in ("setattr", "delattr")
+            is_dunder = isinstance(f, ast.Attribute) and f.attr in ("__setattr__", "__delattr__")
+            obj = None
+            if is_setattr and n.args:
+                obj, rest = n.args[0], n.args[1:]
+            elif is_dunder:
+                obj, rest = f.value, n.args
+            if obj is not None and isinstance(obj, ast.Name) and obj.id in roots:
+                if rest and isinstance(rest[0], ast.Constant) and isinstance(rest[0].value, str):
+                    found.append((n.lineno, n.col_offset, rest[0].value))
+                else:
+                    raise TranslatorError("%s: setattr on %s with a computed attribute name (line %d)" % (where, obj.id, n.lineno))
+            if isinstance(f, ast.Attribute) and f.attr == "update" and isinstance(f.value, ast.Attribute) \
+                    and f.value.attr == "__dict__" and isinstance(f.value.value, ast.Name) and f.value.value.id in roots:
+                raise TranslatorError("%s: %s.__dict__.update (line %d)" % (where, f.value.value.id, n.lineno))
+    found.sort()
+    return [a for (_, _, a) in found]
+
+
+def uniq(xs):
+    seen, out = set(), []
+    for x in xs:
+        if x not in seen:
+            seen.add(x)
+            out.append(x)
+    return out
+
+
+def name_reads(node, name):
+    """Load occurrences of Name `name` below node"""
+    return [n for n in ast.walk(node) if isinstance(n, ast.Name) and n.id == name and isinstance(n.ctx, ast.Load)]
+
+
+def state_fields():
+    # --- InitialCondition.__init__ -------------------------------------------------------
+    rel = "aquacrop/entities/initParamVariables.py"
+    text = src(rel)
+    tree = _parse(text)
+    cls = find_class(tree, "InitialCondition", rel)
+    for st in cls.body:
+        if isinstance(st, ast.FunctionDef) or (isinstance(st, ast.Expr) and isinstance(st.value, ast.Constant)):
+            continue
+        raise TranslatorError("%s: class InitialCondition: unexpected class-level statement %s (line %d)"
+                              % (rel, type(st).__name__, st.lineno))
+    meths = [n.name for n in cls.body if isinstance(n, ast.FunctionDef)]
+    if meths != ["__init__"]:
+        raise TranslatorError("%s: class InitialCondition has methods other than __init__: %s" % (rel, meths))
+    if cls.bases or cls.keywords or cls.decorator_list:
+        raise TranslatorError("%s: class InitialCondition has bases/decorators" % rel)
+    init = find_function(cls.body, "__init__", rel)
+    _no_dynamic(init, rel)
+    if not init.args.args or init.args.args[0].arg != "self":
+        raise TranslatorError("%s: InitialCondition.__init__ has no self" % rel)
+    fields = []
+    for st in init.body:
+        if isinstance(st, ast.Expr) and isinstance(st.value, ast.Constant):
+            continue
+        if isinstance(st, ast.Assign) and len(st.targets) == 1 and isinstance(st.targets[0], ast.Attribute) \
+                and isinstance(st.targets[0].value, ast.Name) and st.targets[0].value.id == "self":
+            fields.append(st.targets[0].attr)
+        elif isinstance(st, ast.AnnAssign) and isinstance(st.target, ast.Attribute) \
+                and isinstance(st.target.value, ast.Name) and st.target.value.id == "self" and st.value is not None:
+            fields.append(st.target.attr)
+        else:
+            raise TranslatorError("%s: InitialCondition.__init__: statement is not `self.<name> = <expr>`: %s (line %d)"
+                                  % (rel, type(st).__name__, st.lineno))
+    # (duplicates are kept: state_fields_nodup is an obligation, not a translator decision)
+
+    # --- reset_initial_conditions ---------------------------------------------------------
+    rel2 = "aquacrop/timestep/reset_initial_conditions.py"
+    text2 = src(rel2)
+    tree2 = _parse(text2)
+    fn = find_function(tree2.body, "reset_initial_conditions", rel2)
+    _no_dynamic(fn, rel2)
+    params = [a.arg for a in fn.args.args]
+    if fn.args.vararg or fn.args.kwarg or fn.args.kwonlyargs or fn.args.posonlyargs:
+        raise TranslatorError("%s: reset_initial_conditions: unexpected parameter kinds" % rel2)
+    for need in ("InitCond", "weather", "crop"):
+        if need not in params:
+            raise TranslatorError("%s: reset_initial_conditions has no parameter `%s` (parameters: %s)" % (rel2, need, params))
+    # the state object must not be reachable under another local name, nor be rebound
+    for n in ast.walk(fn):
+        if isinstance(n, (ast.Assign, ast.AnnAssign, ast.NamedExpr)):
+            v = n.value
+            if isinstance(v, ast.Name) and v.id == "InitCond":
+                raise TranslatorError("%s: InitCond is aliased by a local (line %d)" % (rel2, n.lineno))
+        if isinstance(n, ast.Name) and n.id == "InitCond" and isinstance(n.ctx, (ast.Store, ast.Del)):
+            raise TranslatorError("%s: InitCond is rebound (line %d)" % (rel2, n.lineno))
+    reset = uniq(attr_targets_on(fn, {"InitCond"}, rel2))
+    reset_crop = uniq(attr_targets_on(fn, {"crop"}, rel2))
+
+    # weather reads + guard
+    reads = name_reads(fn, "weather")
+    guards = []
+
+    def walk_guard(body, stack):
+        for st in body:
+            if isinstance(st, ast.If):
+                if name_reads(st.test, "weather"):
+                    guards.append(" && ".join(stack) if stack else "")
+                g = ast.get_source_segment(text2, st.test)
+                walk_guard(st.body, stack + [g])
+                walk_guard(st.orelse, stack + ["not (%s)" % g])
+            elif isinstance(st, (ast.For, ast.While)):
+                hdr = st.iter if isinstance(st, ast.For) else st.test
+                if name_reads(hdr, "weather"):
+                    guards.append(" && ".join(stack) if stack else "")
+                walk_guard(st.body, stack)
+                walk_guard(st.orelse, stack)
+            elif isinstance(st, (ast.With, ast.Try)):
+                raise TranslatorError("%s: reset_initial_conditions: with/try not recognised (line %d)" % (rel2, st.lineno))
+            elif isinstance(st, (ast.FunctionDef, ast.ClassDef, ast.Lambda)):
+                raise TranslatorError("%s: reset_initial_conditions: nested def/class (line %d)" % (rel2, st.lineno))
+            else:
+                if name_reads(st, "weather"):
+                    guards.append(" && ".join(stack) if stack else "")
+
+    walk_guard(fn.body, [])
+
+    # which state fields are assigned on EVERY path through the function, and which only under a top-level `if`
+    for n in ast.walk(fn):
+        if isinstance(n, ast.Return) and n is not fn.body[-1]:
+            raise TranslatorError("%s: reset_initial_conditions: return before the end of the function (line %d)" % (rel2, n.lineno))
+        if isinstance(n, (ast.Break, ast.Continue, ast.Raise, ast.Try)):
+            raise TranslatorError("%s: reset_initial_conditions: %s not recognised (line %d)" % (rel2, type(n).__name__, n.lineno))
+
+    def definite(body):
+        got = []
+        for st in body:
+            if isinstance(st, ast.If):
+                a, b = definite(st.body), definite(st.orelse)
+                got += [x for x in a if x in b]
+            elif isinstance(st, (ast.For, ast.While, ast.With)):
+                pass       # body may run zero times / not recognised: nothing definite
+            else:
+                got += attr_targets_on(st, {"InitCond"}, rel2)
+        return uniq(got)
+
+    uncond = definite(fn.body)
+    guarded = []
+    for st in fn.body:
+        if isinstance(st, ast.If):
+            g = " ".join(ast.get_source_segment(text2, st.test).split())
+            for x in definite(st.body):
+                if x not in uncond:
+                    guarded.append((x, g))
+            for x in definite(st.orelse):
+                if x not in uncond:
+                    guarded.append((x, "not (%s)" % g))
+    covered = set(uncond) | {x for (x, _) in guarded}
+    guards = uniq(guards)
+    if len(guards) != len(uniq(guards)) or (reads and not guards):
+        raise TranslatorError("%s: weather reads not located" % rel2)
+    if len(guards) > 1:
+        raise TranslatorError("%s: reset_initial_conditions reads `weather` under %d different guards: %s"
+                              % (rel2, len(guards), guards))
+    guard = guards[0] if guards else ""
+
+    # --- read_model_initial_conditions ----------------------------------------------------
+    rel3 = "aquacrop/initialize/read_model_initial_conditions.py"
+    tree3 = _parse(src(rel3))
+    fn3 = find_function(tree3.body, "read_model_initial_conditions", rel3)
+    _no_dynamic(fn3, rel3)
+    # the state object there is the local bound to InitialCondition(...)
+    state_names = []
+    for n in ast.walk(fn3):
+        if isinstance(n, ast.Assign) and isinstance(n.value, ast.Call) and isinstance(n.value.func, ast.Name) \
+                and n.value.func.id == "InitialCondition":
+            if len(n.targets) != 1 or not isinstance(n.targets[0], ast.Name):
+                raise TranslatorError("%s: InitialCondition(...) not bound to a plain name (line %d)" % (rel3, n.lineno))
+            state_names.append(n.targets[0].id)
+    calls = [n for n in ast.walk(fn3) if isinstance(n, ast.Call) and isinstance(n.func, ast.Name) and n.func.id == "InitialCondition"]
+    if len(calls) != 1 or len(state_names) != 1:
+        raise TranslatorError("%s: expected exactly one `<name> = InitialCondition(...)`" % rel3)
+    sname = state_names[0]
+    for n in ast.walk(fn3):
+        if isinstance(n, ast.Assign) and isinstance(n.value, ast.Name) and n.value.id == sname:
+            raise TranslatorError("%s: state object %s aliased by a local (line %d)" % (rel3, sname, n.lineno))
+    init_set = uniq(attr_targets_on(fn3, {sname}, rel3))
+
+    out = ["(* GENERATED by harness/gen_facts.py from aquacrop/entities/initParamVariables.py,",
+           "   aquacrop/timestep/reset_initial_conditions.py and aquacrop/initialize/read_model_initial_conditions.py.",
+           "   DO NOT EDIT. *)",
+           "From Coq Require Import String List Bool.", "Import ListNotations.", "Local Open Scope string_scope.", ""]
+    out += coq_str_list("state_fields", fields, "names assigned on self in InitialCondition.__init__, source order")
+    out.append("")
+    out += coq_str_list("reset_fields", reset,
+                        "attributes assigned on InitCond anywhere in reset_initial_conditions (first occurrence order)")
+    out.append("")
+    out += coq_str_list("reset_fields_unconditional", uncond,
+                        "... of which assigned on every path through the function (if/else: in both branches)")
+    out.append("")
+    out.append("(* ... and (field, test) for fields assigned on every path through the body of a top-level `if test:` only *)")
+    out.append("Definition reset_fields_guarded : list (string * string) := [")
+    out.append(";\n".join("  (%s, %s)" % (coq_str(a), coq_str(b)) for (a, b) in guarded))
+    out += ["].", ""]
+    out += coq_str_list("reset_fields_maybe", [x for x in reset if x not in covered],
+                        "... and the rest: assigned on some paths only (deeper conditionals, loops)")
+    out.append("")
+    out += coq_str_list("reset_crop_fields", reset_crop, "attributes assigned on crop in reset_initial_conditions")
+    out.append("")
+    out.append("(* does reset_initial_conditions read its `weather` argument, and under which syntactic guard *)")
+    out.append("Definition reset_reads_weather : bool := %s." % ("true" if reads else "false"))
+    out.append("Definition reset_weather_read_count : nat := %d." % len(reads))
+    out.append("Definition reset_weather_guard : string := %s." % coq_str(" ".join(guard.split())))
+    out.append("")
+    out += coq_str_list("init_fields_set_by_read_model_initial_conditions", init_set,
+                        "attributes assigned on the state object (%s) in read_model_initial_conditions" % sname)
+    out.append("")
+    return "\n".join(out), {"state_fields": len(fields), "reset_fields": len(reset), "reset_crop_fields": len(reset_crop),
+                            "reset_reads_weather": bool(reads), "init_fields": len(init_set)}
+
+
+# -----------------------------------------------------------------------------------------
+#  Store sites
+#
+#  Alias rules (trusted; conservative, flow-insensitive within a function):
+#    * a local is bound to everything ever assigned to it (plain / annotated / walrus / for / with /
+#      comprehension targets, tuple unpacking);
+#    * x.a, x[i] (basic indexing), x[i:j], *x, (a if c else b), (a or b) alias what x / a / b alias;
+#      x[<comparison>] (boolean mask = numpy/pandas advanced indexing) is a copy;
+#    * a display [a, b] / {k: a} / comprehension, and list(x), tuple(x), sorted(x), zip(..), enumerate(..) are
+#      FRESH containers holding what their parts alias (tag prefix "@"): a store into the container itself is
+#      not reported, a store through one of its elements (c[0].f = .., for e in c: e.f = ..) is;
+#    * arithmetic, comparisons, constants, f-strings are fresh;
+#    * a call of a function/class defined in the scanned package aliases those arguments that the
+#      callee's return value may alias (summary computed with these same rules, fixpoint over the package;
+#      per tuple position when every `return` of the callee is a tuple of one length); a package class
+#      constructor returns a fresh object HOLDING those arguments that its __init__ may store below self
+#      (all arguments when there is no unique __init__); an unresolvable callee (callable held in a local)
+#      aliases all arguments; library calls are fresh except the view-returning ones listed below;
+#    * heap-mediated aliasing (x.a = y; ...; x.a[0] = v mutates y) is NOT tracked: the row is rooted at x.
+#  Reported roots: function parameters (incl. self; a default-argument object is reached through its
+#  parameter), module-level names (incl. imported names), and - for nested functions - the enclosing
+#  function's parameters.  Stores whose root expression aliases none of these are not reported
+#  (objects created in the function).
+# -----------------------------------------------------------------------------------------
+SCAN_GLOBS = ["aquacrop/core.py", "aquacrop/entities/*.py", "aquacrop/entities/crops/*.py", "aquacrop/initialize/*.py",
+              "aquacrop/solution/*.py", "aquacrop/timestep/*.py", "aquacrop/utils/*.py"]
+PACKAGE_TOPS = {"aquacrop"}
+
+MUTATING_METHODS = {
+    # list / dict / set / bytearray / deque
+    "append", "extend", "insert", "update", "pop", "popitem", "remove", "clear", "sort", "reverse", "setdefault",
+    "add", "discard", "difference_update", "intersection_update", "symmetric_difference_update",
+    "appendleft", "extendleft", "popleft", "rotate",
+    # numpy
+    "fill", "put", "itemset", "resize", "setflags", "partition", "setfield", "byteswap",
+    # dunder forms
+    "__setitem__", "__delitem__", "__iadd__", "__isub__", "__imul__", "__itruediv__", "__ifloordiv__",
+    "__imod__", "__ipow__", "__iand__", "__ior__", "__ixor__",
+}
+SETATTR_METHODS = {"__setattr__", "__delattr__"}
+LOC_ATTRS = {"loc", "iloc", "at", "iat"}
+# library *functions* that write into their first argument
+FUNC_MUTATORS = {"put", "place", "putmask", "copyto", "fill_diagonal", "put_along_axis", "shuffle",
+                 "heappush", "heappop", "heapify", "insort", "insort_left", "insort_right"}
+# library functions that change process-global state
+GLOBAL_STATE_FUNCS = {"seed", "set_state", "setrecursionlimit", "seterr", "set_printoptions", "set_option",
+                      "putenv", "chdir", "setlocale", "filterwarnings", "simplefilter"}
+VIEW_METHODS = {"reshape", "ravel", "view", "transpose", "squeeze", "swapaxes", "to_numpy", "get", "setdefault",
+                "items", "values", "keys", "iterrows", "itertuples", "pop", "popitem", "__getitem__", "diagonal",
+                "__iter__", "__next__"}
+VIEW_FUNCS = {"asarray", "asanyarray", "ascontiguousarray", "asfortranarray", "atleast_1d", "atleast_2d", "atleast_3d",
+              "reshape", "ravel", "transpose", "squeeze", "swapaxes", "moveaxis", "expand_dims", "broadcast_to",
+              "diagonal", "nditer", "copy_"}  # np.array(x, copy=False) handled separately
+CONTAINER_BUILTINS = {"enumerate", "zip", "reversed", "iter", "list", "tuple", "sorted", "dict", "set", "frozenset",
+                      "filter", "map"}            # fresh container / iterator over (parts of) the arguments
+DIRECT_BUILTINS = {"getattr", "min", "max", "next", "type", "super"}   # may return (a part of) an argument itself
+ALIAS_BUILTINS = CONTAINER_BUILTINS | DIRECT_BUILTINS
+
+
+def strip_tag(t):
+    return t.lstrip("@")
+
+
+def box(tags):
+    return {"@" + strip_tag(t) for t in tags}
+
+
+def unbox(tags):
+    return {strip_tag(t) for t in tags}
+STMT_SIMPLE = (ast.Pass, ast.Break, ast.Continue)
+EXPR_LEAF = (ast.Constant,)
+KIND_ORDER = ["Attr", "Index", "AttrIndex", "AugAttr", "AugIndex", "LocIndex", "SetAttr", "MutCall"]
+
+
+class Mod:
+    def __init__(self, rel, name, text):
+        self.rel, self.name, self.text = rel, name, text
+        self.tree = _parse(text)
+        self.imports = {}      # name -> ("mod", fullname) | ("from", module, orig, level)
+        self.stars = []        # (module, level)
+        self.defs = {}         # top-level functions
+        self.classes = {}      # top-level classes
+        self.assigned = []     # (name, value node or None)
+        self.names = set()     # every module-level name
+        self.fns = []          # Fn objects (incl. <module>, methods, nested)
+
+
+class Fn:
+    def __init__(self, mod, qual, node, encl, cls):
+        self.mod, self.qual, self.node, self.encl, self.cls = mod, qual, node, encl, cls
+        if isinstance(node, ast.Module) or isinstance(node, ast.ClassDef):
+            self.params, self.pos_params, self.vararg, self.kwarg = [], [], None, None
+        else:
+            a = node.args
+            self.pos_params = [x.arg for x in a.posonlyargs + a.args]
+            self.vararg = a.vararg.arg if a.vararg else None
+            self.kwarg = a.kwarg.arg if a.kwarg else None
+            self.params = self.pos_params + ([self.vararg] if self.vararg else []) + [x.arg for x in a.kwonlyargs] \
+                + ([self.kwarg] if self.kwarg else [])
+        self.is_module = isinstance(node, ast.Module)
+        self.is_classbody = isinstance(node, ast.ClassDef)
+        self.locals = set(self.params)
+        self.bindings = []     # (name, value expr, how)   how: "v" | ("pos", i, n)
+        self.stores = []       # (target node, aug, assigned value expr or None)
+        self.ctor_holds = set()  # __init__ only: own params whose objects may end up stored below self
+        self.augnames = []     # (Name node)  x += ...
+        self.calls = []        # Call nodes
+        self.returns = []      # value exprs (None for bare return)
+        self.origins = {}      # local name -> set of tags
+        self.ret_whole = set() # tags the return value may alias  ("P:x" own params, others verbatim)
+        self.ret_pos = None    # list of sets when all returns are tuples of one length
+        self.mut_params = set()  # own params (names) that may be written through, here or in callees
+
+    def where(self):
+        return "%s:%s" % (self.mod.rel, self.qual)
+
+
+def unparse(n):
+    try:
+        return ast.unparse(n)
+    except Exception:
+        return type(n).__name__
+
+
+class Collector:
+    """fail-closed walk of one function body: bindings, stores, calls, returns, nested defs"""
+
+    def __init__(self, fn, make_fn):
+        self.fn, self.make_fn = fn, make_fn
+        self.comp = 0     # > 0 inside a comprehension / lambda (their variables are never module-level names)
+
+    def err(self, node, what):
+        raise TranslatorError("%s: %s (line %d): %s" % (self.fn.where(), what, getattr(node, "lineno", 0),
+                                                       comment_safe(unparse(node))))
+
+    # ---- statements
+    def stmts(self, body):
+        for s in body:
+            self.stmt(s)
+
+    def stmt(self, s):
+        fn = self.fn
+        if isinstance(s, (ast.Global, ast.Nonlocal)):
+            self.err(s, "`%s` statement" % type(s).__name__.lower())
+        elif isinstance(s, ast.Assign):
+            self.expr(s.value)
+            for t in s.targets:
+                self.target(t, s.value, False)
+        elif isinstance(s, ast.AugAssign):
+            self.expr(s.value)
+            if isinstance(s.target, ast.Name):
+                if not fn.is_module:
+                    fn.locals.add(s.target.id)
+                fn.augnames.append(s.target)
+            elif isinstance(s.target, (ast.Attribute, ast.Subscript)):
+                self.target(s.target, None, True)
+            else:
+                self.err(s, "augmented assignment target not recognised")
+        elif isinstance(s, ast.AnnAssign):
+            if s.value is not None:
+                self.expr(s.value)
+                self.target(s.target, s.value, False)
+            elif not isinstance(s.target, ast.Name):
+                self.err(s, "bare annotation on a non-name")
+        elif isinstance(s, ast.Expr):
+            self.expr(s.value)
+        elif isinstance(s, (ast.If, ast.While)):
+            self.expr(s.test)
+            self.stmts(s.body)
+            self.stmts(s.orelse)
+        elif isinstance(s, ast.For):
+            self.expr(s.iter)
+            self.target(s.target, s.iter, False, elem=True)
+            self.stmts(s.body)
+            self.stmts(s.orelse)
+        elif isinstance(s, ast.Return):
+            if s.value is not None:
+                self.expr(s.value)
+            fn.returns.append(s.value)
+        elif isinstance(s, ast.Assert):
+            self.expr(s.test)
+            if s.msg is not None:
+                self.expr(s.msg)
+        elif isinstance(s, ast.Raise):
+            if s.exc is not None:
+                self.expr(s.exc)
+            if s.cause is not None:
+                self.expr(s.cause)
+        elif isinstance(s, STMT_SIMPLE):
+            pass
+        elif isinstance(s, ast.Try):
+            self.stmts(s.body)
+            for h in s.handlers:
+                if h.type is not None:
+                    self.expr(h.type)
+                if h.name and not fn.is_module:
+                    fn.locals.add(h.name)
+                self.stmts(h.body)
+            self.stmts(s.orelse)
+            self.stmts(s.finalbody)
+        elif isinstance(s, ast.With):
+            for it in s.items:
+                self.expr(it.context_expr)
+                if it.optional_vars is not None:
+                    self.target(it.optional_vars, it.context_expr, False)
+            self.stmts(s.body)
+        elif isinstance(s, (ast.Import, ast.ImportFrom)):
+            if fn.is_module:
+                return  # recorded by the module pass
+            if isinstance(s, ast.ImportFrom) and any(a.name == "*" for a in s.names):
+                self.err(s, "star import inside a function")
+            for a in s.names:
+                fn.locals.add((a.asname or a.name).split(".")[0])
+        elif isinstance(s, ast.FunctionDef):
+            if s.decorator_list and not all(self.ok_decorator(d) for d in s.decorator_list):
+                self.err(s, "decorator not recognised")
+            for d in s.args.defaults + [d for d in s.args.kw_defaults if d is not None]:
+                self.expr(d)
+            if not fn.is_module and not fn.is_classbody:
+                fn.locals.add(s.name)
+            self.make_fn(s, fn)
+        elif isinstance(s, ast.ClassDef):
+            if not fn.is_module:
+                self.err(s, "class definition inside a function/class")
+            if s.decorator_list or s.keywords:
+                self.err(s, "class decorator / metaclass keyword")
+            for b in s.bases:
+                self.expr(b)
+            self.make_fn(s, fn)
+        elif isinstance(s, ast.Delete):
+            for t in s.targets:
+                if isinstance(t, ast.Name):
+                    continue
+                if isinstance(t, (ast.Attribute, ast.Subscript)):
+                    self.target(t, None, False)
+                else:
+                    self.err(s, "del target not recognised")
+        else:
+            self.err(s, "statement kind %s not recognised" % type(s).__name__)
+
+    @staticmethod
+    def ok_decorator(d):
+        if isinstance(d, ast.Name) and d.id in ("property", "staticmethod"):
+            return True
+        if isinstance(d, ast.Attribute) and d.attr in ("setter", "getter", "deleter") and isinstance(d.value, ast.Name):
+            return True
+        return False
+
+    # ---- assignment targets
+    def target(self, t, value, aug, elem=False):
+        fn = self.fn
+        if isinstance(t, ast.Name):
+            if not fn.is_module or self.comp:
+                fn.locals.add(t.id)
+            if value is not None:
+                fn.bindings.append((t.id, value, "e" if elem else "v"))
+        elif isinstance(t, (ast.Tuple, ast.List)):
+            n = len(t.elts)
+            starred = any(isinstance(e, ast.Starred) for e in t.elts)
+            if value is not None and not elem and isinstance(value, (ast.Tuple, ast.List)) and len(value.elts) == n \
+                    and not starred and not any(isinstance(e, ast.Starred) for e in value.elts):
+                for ti, vi in zip(t.elts, value.elts):
+                    self.target(ti, vi, aug)
+            elif value is not None and not elem and isinstance(value, ast.Call) and not starred:
+                for i, ti in enumerate(t.elts):
+                    if isinstance(ti, ast.Name):
+                        if not fn.is_module or self.comp:
+                            fn.locals.add(ti.id)
+                        fn.bindings.append((ti.id, value, ("pos", i, n)))
+                    else:
+                        self.target(ti, value, aug, elem=True)
+            else:
+                for ti in t.elts:
+                    self.target(ti, value, aug, elem=True)
+        elif isinstance(t, ast.Starred):
+            self.target(t.value, value, aug, elem=True)
+        elif isinstance(t, (ast.Attribute, ast.Subscript)):
+            fn.stores.append((t, aug, value))
+            self.expr(t.value)
+            if isinstance(t, ast.Subscript):
+                self.expr(t.slice)
+        else:
+            self.err(t, "assignment target kind %s not recognised" % type(t).__name__)
+
+    # ---- expressions
+    def expr(self, e):
+        fn = self.fn
+        if e is None or isinstance(e, EXPR_LEAF):
+            return
+        if isinstance(e, ast.Name):
+            return
+        if isinstance(e, ast.Attribute):
+            if e.attr == "__class__" or e.attr == "__globals__" or e.attr == "__builtins__":
+                self.err(e, "access to %s" % e.attr)
+            self.expr(e.value)
+        elif isinstance(e, ast.Subscript):
+            self.expr(e.value)
+            self.expr(e.slice)
+        elif isinstance(e, ast.Slice):
+            self.expr(e.lower), self.expr(e.upper), self.expr(e.step)
+        elif isinstance(e, ast.Call):
+            if isinstance(e.func, ast.Name) and e.func.id in FORBIDDEN_CALLS and e.func.id not in fn.locals:
+                self.err(e, "call of %s()" % e.func.id)
+            fn.calls.append(e)
+            self.expr(e.func)
+            for a in e.args:
+                self.expr(a)
+            for k in e.keywords:
+                self.expr(k.value)
+        elif isinstance(e, (ast.BoolOp,)):
+            for v in e.values:
+                self.expr(v)
+        elif isinstance(e, ast.BinOp):
+            self.expr(e.left), self.expr(e.right)
+        elif isinstance(e, ast.UnaryOp):
+            self.expr(e.operand)
+        elif isinstance(e, ast.Compare):
+            self.expr(e.left)
+            for c in e.comparators:
+                self.expr(c)
+        elif isinstance(e, ast.IfExp):
+            self.expr(e.test), self.expr(e.body), self.expr(e.orelse)
+        elif isinstance(e, (ast.Tuple, ast.List, ast.Set)):
+            for x in e.elts:
+                self.expr(x)
+        elif isinstance(e, ast.Dict):
+            for k in e.keys:
+                self.expr(k)
+            for v in e.values:
+                self.expr(v)
+        elif isinstance(e, ast.Starred):
+            self.expr(e.value)
+        elif isinstance(e, ast.JoinedStr):
+            for v in e.values:
+                self.expr(v)
+        elif isinstance(e, ast.FormattedValue):
+            self.expr(e.value)
+            self.expr(e.format_spec)
+        elif isinstance(e, (ast.ListComp, ast.SetComp, ast.GeneratorExp, ast.DictComp)):
+            self.comp += 1
+            for g in e.generators:
+                if g.is_async:
+                    self.err(e, "async comprehension")
+                self.expr(g.iter)
+                self.target(g.target, g.iter, False, elem=True)
+                for c in g.ifs:
+                    self.expr(c)
+            if isinstance(e, ast.DictComp):
+                self.expr(e.key), self.expr(e.value)
+            else:
+                self.expr(e.elt)
+            self.comp -= 1
+        elif isinstance(e, ast.NamedExpr):
+            self.expr(e.value)
+            self.target(e.target, e.value, False)
+        elif isinstance(e, ast.Lambda):
+            a = e.args
+            for x in a.posonlyargs + a.args + a.kwonlyargs + ([a.vararg] if a.vararg else []) + ([a.kwarg] if a.kwarg else []):
+                fn.locals.add(x.arg)         # fresh local (shadowing makes the analysis coarser, not unsound:
+                # a lambda parameter named like an aliased local keeps that local's aliases)
+            for d in a.defaults + [d for d in a.kw_defaults if d is not None]:
+                self.expr(d)
+            self.expr(e.body)
+        else:
+            self.err(e, "expression kind %s not recognised" % type(e).__name__)
+
+
+class Package:
+    def __init__(self):
+        self.mods = {}       # module name -> Mod
+        self.fns = []        # all Fn
+        self.by_simple = {}  # simple function name -> [Fn]  (top-level functions)
+        self.cls_by_simple = {}  # class name -> [(Mod, ClassDef)]
+        self.methods = {}    # method name -> [Fn]
+        self.load()
+
+    # ---- loading
+    def load(self):
+        rels = []
+        for g in SCAN_GLOBS:
+            hits = sorted(_glob.glob(os.path.join(REPO, g)))
+            if not hits:
+                raise TranslatorError("no source file matches %s" % g)
+            rels += [os.path.relpath(h, REPO) for h in hits]
+        for rel in rels:
+            name = rel[:-3].replace(os.sep, ".")
+            m = Mod(rel, name, src(rel))
+            self.mods[name] = m
+        for m in self.mods.values():
+            self.module_pass(m)
+        self.resolve_stars()
+        for m in self.mods.values():
+            self.collect_module(m)
+
+    def module_pass(self, m):
+        """module-level names (any nesting of if/try at module level)"""
+        def walk(body):
+            for s in body:
+                if isinstance(s, ast.Import):
+                    for a in s.names:
+                        if a.asname:
+                            m.imports[a.asname] = ("mod", a.name)
+                        else:
+                            m.imports[a.name.split(".")[0]] = ("mod", a.name.split(".")[0])
+                elif isinstance(s, ast.ImportFrom):
+                    for a in s.names:
+                        if a.name == "*":
+                            m.stars.append((s.module or "", s.level, s.lineno))
+                        else:
+                            m.imports[a.asname or a.name] = ("from", s.module or "", a.name, s.level)
+                elif isinstance(s, ast.FunctionDef):
+                    if s.name in m.defs or s.name in m.classes:
+                        raise TranslatorError("%s: %s defined twice at module level" % (m.rel, s.name))
+                    m.defs[s.name] = s
+                elif isinstance(s, ast.ClassDef):
+                    if s.name in m.defs or s.name in m.classes:
+                        raise TranslatorError("%s: %s defined twice at module level" % (m.rel, s.name))
+                    m.classes[s.name] = s
+                elif isinstance(s, (ast.Assign, ast.AnnAssign, ast.AugAssign)):
+                    tg = s.targets if isinstance(s, ast.Assign) else [s.target]
+                    for t in tg:
+                        for n in ast.walk(t):
+                            if isinstance(n, ast.Name) and isinstance(n.ctx, ast.Store):
+                                simple = isinstance(t, ast.Name)
+                                m.assigned.append((n.id, s.value if simple else None, s.lineno))
+                elif isinstance(s, (ast.If, ast.While)):
+                    walk(s.body), walk(s.orelse)
+                elif isinstance(s, ast.For):
+                    for n in ast.walk(s.target):
+                        if isinstance(n, ast.Name):
+                            m.assigned.append((n.id, None, s.lineno))
+                    walk(s.body), walk(s.orelse)
+                elif isinstance(s, ast.Try):
+                    walk(s.body)
+                    for h in s.handlers:
+                        walk(h.body)
+                    walk(s.orelse), walk(s.finalbody)
+                elif isinstance(s, ast.With):
+                    for it in s.items:
+                        if it.optional_vars is not None:
+                            for n in ast.walk(it.optional_vars):
+                                if isinstance(n, ast.Name):
+                                    m.assigned.append((n.id, None, s.lineno))
+                    walk(s.body)
+                elif isinstance(s, (ast.Expr, ast.Assert, ast.Raise, ast.Pass, ast.Delete, ast.Global, ast.Nonlocal)):
+                    pass      # no binding; examined by the collector
+                else:
+                    raise TranslatorError("%s: module-level statement kind %s not recognised (line %d)"
+                                          % (m.rel, type(s).__name__, s.lineno))
+        walk(m.tree.body)
+        # names bound by comprehension / walrus at module level are module-level names too
+        for s in m.tree.body:
+            if not isinstance(s, (ast.FunctionDef, ast.ClassDef)):
+                for n in ast.walk(s):
+                    if isinstance(n, ast.NamedExpr) and isinstance(n.target, ast.Name):
+                        m.assigned.append((n.target.id, None, n.lineno))
+        m.names = set(m.imports) | set(m.defs) | set(m.classes) | {a for (a, _, _) in m.assigned}
+
+    def import_target(self, m, module, level):
+        """scanned module a (relative or absolute) import refers to, or None"""
+        if level > 0:
+            base = m.name.split(".")[:-level]
+            full = ".".join(base + ([module] if module else []))
+        else:
+            full = module
+        if full in self.mods:
+            return self.mods[full]
+        if full + ".__init__" in self.mods:
+            return self.mods[full + ".__init__"]
+        return None
+
+    def is_package_import(self, module, level):
+        return level > 0 or (module.split(".")[0] in PACKAGE_TOPS)
+
+    def resolve_stars(self):
+        changed = True
+        rounds = 0
+        while changed:
+            changed = False
+            rounds += 1
+            if rounds > 50:
+                raise TranslatorError("star-import resolution does not terminate")
+            for m in self.mods.values():
+                for (module, level, lineno) in m.stars:
+                    t = self.import_target(m, module, level)
+                    if t is None:
+                        raise TranslatorError("%s: star import from a module outside the scanned package: %s (line %d)"
+                                              % (m.rel, module, lineno))
+                    for n in t.names:
+                        if n.startswith("_"):
+                            continue
+                        if n not in m.names:
+                            m.names.add(n)
+                            # resolve like an explicit from-import of the name
+                            if n in t.imports:
+                                m.imports[n] = t.imports[n] if t.imports[n][0] == "mod" else \
+                                    ("from_abs", t, n)
+                            else:
+                                m.imports[n] = ("from_abs", t, n)
+                            changed = True
+
+    def collect_module(self, m):
+        def make_fn(node, encl):
+            if isinstance(node, ast.ClassDef):
+                f = Fn(m, node.name, node, None, node.name)
+                f.is_classbody = True
+            else:
+                if encl.is_module:
+                    qual, cls, enc = node.name, None, None
+                elif encl.is_classbody:
+                    qual, cls, enc = encl.qual + "." + node.name, encl.qual, None
+                else:
+                    qual, cls, enc = encl.qual + "." + node.name, encl.cls, encl
+                f = Fn(m, qual, node, enc, cls)
+                if cls is not None and enc is None and not any(
+                        isinstance(d, ast.Name) and d.id == "staticmethod" for d in node.decorator_list):
+                    f.is_method = True
+                    self.methods.setdefault(node.name, []).append(f)
+                else:
+                    f.is_method = False
+                if encl.is_module:
+                    self.by_simple.setdefault(node.name, []).append(f)
+            if isinstance(node, ast.ClassDef):
+                self.cls_by_simple.setdefault(node.name, []).append(f)
+                f.is_method = False
+            m.fns.append(f)
+            self.fns.append(f)
+            c = Collector(f, make_fn)
+            c.stmts(node.body)
+            return f
+        top = Fn(m, "<module>", m.tree, None, None)
+        top.is_method = False
+        m.fns.append(top)
+        self.fns.append(top)
+        Collector(top, make_fn).stmts(m.tree.body)
+
+    # ---- name resolution
+    def scope_of(self, fn, name):
+        """('local', Fn) | ('global', None) | ('builtin', None) | error"""
+        f = fn
+        while f is not None:
+            if name in f.locals:      # (<module> has only comprehension / lambda variables here)
+                return ("local", f)
+            f = f.encl
+        if name in fn.mod.names:
+            return ("global", None)
+        if name in PY_BUILTINS or name in ("__file__", "__name__", "__doc__"):
+            return ("builtin", None)
+        raise TranslatorError("%s: name `%s` is neither a local, a module-level name nor a builtin" % (fn.where(), name))
+
+    def external_module_root(self, fn, e):
+        """True when expression e is a Name (or attribute chain on a Name) that denotes an imported
+        non-package module / object, e.g. np, np.random, os.path"""
+        while isinstance(e, ast.Attribute):
+            e = e.value
+        if not isinstance(e, ast.Name):
+            return False
+        kind, _ = self.scope_of(fn, e.id)
+        if kind != "global":
+            return False
+        imp = fn.mod.imports.get(e.id)
+        if imp is None:
+            return False
+        if imp[0] == "mod":
+            return imp[1].split(".")[0] not in PACKAGE_TOPS
+        if imp[0] == "from":
+            return not self.is_package_import(imp[1], imp[3])
+        return False
+
+    def callee(self, fn, call):
+        """-> ('pkg', [Fn], recv or None) | ('ctor', [Fn class bodies]) | ('view', recv_or_None) | ('alias_all',)
+              | ('fresh',)"""
+        f = call.func
+        if isinstance(f, ast.Name):
+            kind, _ = self.scope_of(fn, f.id)
+            if kind == "local":
+                return ("alias_all",)
+            if kind == "builtin":
+                if f.id in CONTAINER_BUILTINS:
+                    return ("box_all",)
+                return ("alias_all",) if f.id in DIRECT_BUILTINS else ("fresh",)
+            m = fn.mod
+            if f.id in m.defs:
+                return ("pkg", [x for x in m.fns if x.qual == f.id and x.encl is None and x.cls is None], None)
+            if f.id in m.classes:
+                return ("ctor", [x for x in m.fns if x.is_classbody and x.qual == f.id])
+            imp = m.imports.get(f.id)
+            if imp is None:
+                return ("alias_all",)   # module-level variable holding a callable
+            if imp[0] == "mod":
+                return ("fresh",) if imp[1].split(".")[0] not in PACKAGE_TOPS else ("alias_all",)
+            if imp[0] == "from_abs":
+                t, orig = imp[1], imp[2]
+                return self.lookup_in(t, orig)
+            _, module, orig, level = imp
+            if self.is_package_import(module, level):
+                t = self.import_target(m, module, level)
+                if t is not None:
+                    return self.lookup_in(t, orig)
+                return self.lookup_simple(orig)
+            # imported from outside the package; a name collision with a package function is treated as that function
+            if orig in self.by_simple or orig in self.cls_by_simple:
+                return self.lookup_simple(orig)
+            if orig in VIEW_FUNCS:
+                return ("view", None)
+            if orig == "array" and any(k.arg == "copy" for k in call.keywords):
+                return ("view", None)
+            return ("fresh",)
+        if isinstance(f, ast.Attribute):
+            if self.external_module_root(fn, f.value):
+                if f.attr in VIEW_FUNCS:
+                    return ("view", None)
+                if f.attr == "array" and any(k.arg == "copy" and not (isinstance(k.value, ast.Constant) and k.value.value is True)
+                                             for k in call.keywords):
+                    return ("view", None)
+                return ("fresh",)
+            if f.attr in VIEW_METHODS:
+                return ("view", f.value)
+            if f.attr in self.methods:
+                return ("pkg", self.methods[f.attr], f.value)
+            return ("fresh",)
+        # call of a call result / subscript: unknown callable
+        return ("alias_all",)
+
+    def lookup_in(self, t, orig, depth=0):
+        if depth > 20:
+            return ("alias_all",)
+        if orig in t.defs:
+            return ("pkg", [x for x in t.fns if x.qual == orig and x.encl is None and x.cls is None], None)
+        if orig in t.classes:
+            return ("ctor", [x for x in t.fns if x.is_classbody and x.qual == orig])
+        imp = t.imports.get(orig)
+        if imp is not None and imp[0] == "from_abs":
+            return self.lookup_in(imp[1], imp[2], depth + 1)
+        if imp is not None and imp[0] == "from" and self.is_package_import(imp[1], imp[3]):
+            t2 = self.import_target(t, imp[1], imp[3])
+            if t2 is not None:
+                return self.lookup_in(t2, imp[2], depth + 1)
+        return self.lookup_simple(orig)
+
+    def lookup_simple(self, orig):
+        if orig in self.by_simple:
+            return ("pkg", self.by_simple[orig], None)
+        if orig in self.cls_by_simple:
+            return ("ctor", self.cls_by_simple[orig])
+        return ("alias_all",)
+
+    # ---- alias sources of an expression
+    def src_expr(self, fn, e):
+        if e is None or isinstance(e, (ast.Constant, ast.BinOp, ast.UnaryOp, ast.Compare, ast.JoinedStr, ast.FormattedValue,
+                                       ast.Lambda, ast.Slice)):
+            return set()
+        if isinstance(e, ast.Name):
+            kind, owner = self.scope_of(fn, e.id)
+            if kind == "local":
+                s = set(owner.origins.get(e.id, ()))
+                if e.id in owner.params:
+                    s.add("P:" + e.id)
+                return s
+            if kind == "global":
+                return {"G:" + e.id}
+            return set()
+        if isinstance(e, ast.Attribute):
+            return unbox(self.src_expr(fn, e.value))
+        if isinstance(e, ast.Subscript):
+            if is_mask_index(e.slice):
+                return set()
+            if isinstance(e.slice, ast.Slice):
+                return self.src_expr(fn, e.value)     # c[i:j] of a fresh container is a fresh container
+            return unbox(self.src_expr(fn, e.value))
+        if isinstance(e, ast.Starred):
+            return self.src_expr(fn, e.value)
+        if isinstance(e, ast.NamedExpr):
+            return self.src_expr(fn, e.value)
+        if isinstance(e, ast.IfExp):
+            return self.src_expr(fn, e.body) | self.src_expr(fn, e.orelse)
+        if isinstance(e, ast.BoolOp):
+            s = set()
+            for v in e.values:
+                s |= self.src_expr(fn, v)
+            return s
+        if isinstance(e, (ast.Tuple, ast.List, ast.Set)):
+            s = set()
+            for v in e.elts:
+                s |= self.src_expr(fn, v)
+            return box(s)
+        if isinstance(e, ast.Dict):
+            s = set()
+            for v in e.values:
+                s |= self.src_expr(fn, v)
+            return box(s)
+        if isinstance(e, (ast.ListComp, ast.SetComp, ast.GeneratorExp)):
+            return box(self.src_expr(fn, e.elt))
+        if isinstance(e, ast.DictComp):
+            return box(self.src_expr(fn, e.value))
+        if isinstance(e, ast.Call):
+            return self.src_call(fn, e, None)
+        raise TranslatorError("%s: alias rule missing for expression kind %s (line %d)" % (fn.where(), type(e).__name__, e.lineno))
+
+    def all_arg_src(self, fn, call, recv=None):
+        s = set()
+        for a in call.args:
+            s |= self.src_expr(fn, a)
+        for k in call.keywords:
+            s |= self.src_expr(fn, k.value)
+        if recv is not None:
+            s |= self.src_expr(fn, recv)
+        return s
+
+    def arg_map(self, fn, call, callee, recv):
+        """callee parameter name -> list of argument expressions; None when the call shape is not positional/keyword"""
+        if any(isinstance(a, ast.Starred) for a in call.args) or any(k.arg is None for k in call.keywords):
+            return None
+        pos = list(callee.pos_params)
+        out = {}
+        if callee.is_method:
+            if not pos:
+                return None
+            if recv is not None:
+                out.setdefault(pos[0], []).append(recv)
+            pos = pos[1:]
+        for i, a in enumerate(call.args):
+            if i < len(pos):
+                out.setdefault(pos[i], []).append(a)
+            elif callee.vararg:
+                out.setdefault(callee.vararg, []).append(a)
+            else:
+                return None
+        for k in call.keywords:
+            if k.arg in callee.params and k.arg not in (callee.vararg, callee.kwarg):
+                out.setdefault(k.arg, []).append(k.value)
+            elif callee.kwarg:
+                out.setdefault(callee.kwarg, []).append(k.value)
+            else:
+                return None
+        return out
+
+    def src_call(self, fn, call, pos):
+        """pos = (i, n): the i-th of n names the call result is unpacked into (else None)"""
+        s = self._src_call(fn, call, pos)
+        return unbox(s) if pos is not None else s
+
+    def _src_call(self, fn, call, pos):
+        r = self.callee(fn, call)
+        if r[0] == "fresh":
+            return set()
+        if r[0] == "alias_all":
+            recv = call.func.value if isinstance(call.func, ast.Attribute) else None
+            return self.all_arg_src(fn, call, recv)
+        if r[0] == "box_all":
+            return box(self.all_arg_src(fn, call))
+        if r[0] == "view":
+            s = self.all_arg_src(fn, call, r[1]) if r[1] is None else self.src_expr(fn, r[1])
+            return s
+        if r[0] == "ctor":
+            s = set()
+            for cb in r[1]:
+                inits = [x for x in cb.mod.fns if x.qual == cb.qual + ".__init__" and x.is_method]
+                if len(inits) != 1:
+                    if cb.node.bases or inits:
+                        s |= self.all_arg_src(fn, call)     # inherited / ambiguous __init__
+                    continue
+                am = self.arg_map(fn, call, inits[0], None)
+                if am is None:
+                    s |= self.all_arg_src(fn, call)
+                    continue
+                for p in inits[0].ctor_holds:
+                    for a in am.get(p, []):
+                        s |= self.src_expr(fn, a)
+            if not r[1]:
+                s |= self.all_arg_src(fn, call)
+            return box(s)
+        # package function(s)
+        _, cands, recv = r
+        if not cands:
+            return self.all_arg_src(fn, call, recv)
+        s = set()
+        for c in cands:
+            am = self.arg_map(fn, call, c, recv)
+            if am is None:
+                s |= self.all_arg_src(fn, call, recv)
+                continue
+            tags = c.ret_whole
+            if pos is not None and c.ret_pos is not None and len(c.ret_pos) == pos[1]:
+                tags = c.ret_pos[pos[0]]      # (src_call unboxes: coarser than needed for `return [a], b`, still sound)
+            for t in tags:
+                boxed = t.startswith("@")
+                u = strip_tag(t)
+                if u.startswith("P:") and u[2:] in c.params:
+                    for a in am.get(u[2:], []):
+                        x = self.src_expr(fn, a)
+                        s |= box(x) if boxed else x
+                else:
+                    s.add(t)     # module-level object (or enclosing function's parameter) returned as such
+        return s
+
+    # ---- per-function fixpoint
+    def solve_fn(self, fn):
+        changed_any = False
+        while True:
+            changed = False
+            for (name, value, how) in fn.bindings:
+                if name not in fn.locals:
+                    continue          # module-level name: a root by itself
+                if how == "v":
+                    s = self.src_expr(fn, value)
+                elif how == "e":
+                    s = unbox(self.src_expr(fn, value))      # element of / unpacked from the value
+                else:
+                    s = self.src_call(fn, value, (how[1], how[2]))
+                cur = fn.origins.setdefault(name, set())
+                if not s <= cur:
+                    cur |= s
+                    changed = True
+            if not changed:
+                break
+            changed_any = True
+        return changed_any
+
+    def summarise(self, fn):
+        """returns True when a summary changed"""
+        ch = False
+        if fn.is_module or fn.is_classbody:
+            return False
+        whole = set()
+        pos = None
+        shapes = set()
+        for r in fn.returns:
+            if r is None:
+                shapes.add(None)
+                continue
+            whole |= self.src_expr(fn, r)
+            if isinstance(r, ast.Tuple) and not any(isinstance(x, ast.Starred) for x in r.elts):
+                shapes.add(len(r.elts))
+            else:
+                shapes.add(None)
+        if len(shapes) == 1 and None not in shapes:
+            n = next(iter(shapes))
+            pos = [set() for _ in range(n)]
+            for r in fn.returns:
+                for i, x in enumerate(r.elts):
+                    pos[i] |= self.src_expr(fn, x)
+        if fn.qual.endswith(".__init__") and fn.is_method and fn.pos_params:
+            me = "P:" + fn.pos_params[0]
+            held = set()
+            for (t, _aug, value) in fn.stores:
+                if value is not None and me in self.src_expr(fn, t.value):
+                    held |= unbox(self.src_expr(fn, value))
+            for c in fn.calls:
+                args = list(c.args) + [k.value for k in c.keywords]
+                recv = c.func.value if isinstance(c.func, ast.Attribute) else None
+                touches_self = any(me in unbox(self.src_expr(fn, a)) for a in args) or \
+                    (recv is not None and me in unbox(self.src_expr(fn, recv)))
+                if touches_self:
+                    for a in args:
+                        held |= unbox(self.src_expr(fn, a))
+            held = {h[2:] for h in held if h.startswith("P:") and h[2:] in fn.params and h != me}
+            if held != fn.ctor_holds:
+                fn.ctor_holds = held
+                ch = True
+        if whole != fn.ret_whole:
+            fn.ret_whole = whole
+            ch = True
+        if pos != fn.ret_pos:
+            fn.ret_pos = pos
+            ch = True
+        # parameters written through
+        mp = set()
+        for (root, _attr, _kind, _txt, prov) in self.sites_of(fn, interproc=True):
+            if prov == "P" and root in fn.params:
+                mp.add(root)
+        if mp != fn.mut_params:
+            fn.mut_params = mp
+            ch = True
+        return ch
+
+    def solve(self):
+        # order: enclosing functions before nested ones (list order guarantees it)
+        for rounds in range(200):
+            ch = False
+            for fn in self.fns:
+                if self.solve_fn(fn):
+                    ch = True
+            for fn in self.fns:
+                if self.summarise(fn):
+                    ch = True
+            if not ch:
+                return rounds + 1
+        raise TranslatorError("alias fixpoint did not converge in 200 rounds")
+
+    # ---- sites
+    def roots_of(self, fn, e):
+        tags = self.src_expr(fn, e)
+        return sorted({(t[0], t[2:]) for t in tags if not t.startswith("@")}, key=lambda x: (x[1], x[0]))
+
+    def check_dict_write(self, fn, e, node):
+        """__dict__ in a written path: only below self"""
+        x = e
+        has = False
+        while isinstance(x, (ast.Attribute, ast.Subscript, ast.Call)):
+            if isinstance(x, ast.Attribute) and x.attr == "__dict__":
+                has = True
+            x = x.value if not isinstance(x, ast.Call) else x.func
+        if has:
+            if not (isinstance(x, ast.Name) and x.id == "self" and fn.params and fn.params[0] == "self"):
+                raise TranslatorError("%s: write through __dict__ of a non-self object (line %d): %s"
+                                      % (fn.where(), node.lineno, comment_safe(unparse(node))))
+        return has
+
+    def sites_of(self, fn, interproc=True):
+        """[(root, attr, kind, source text)] in source order"""
+        rows = []
+
+        def emit(node, base, attr, kind, text):
+            for (prov, r) in self.roots_of(fn, base):
+                rows.append((node.lineno, node.col_offset, r, attr, kind, text, prov))
+
+        for (t, aug, _value) in fn.stores:
+            text = unparse(t) + (" (aug)=" if aug else " =")
+            self.check_dict_write(fn, t, t)
+            if isinstance(t, ast.Attribute):
+                emit(t, t.value, t.attr, "AugAttr" if aug else "Attr", text)
+            else:
+                b = t.value
+                if isinstance(b, ast.Attribute) and b.attr in LOC_ATTRS:
+                    obj = b.value
+                    emit(t, obj, obj.attr if isinstance(obj, ast.Attribute) else "", "LocIndex", text)
+                elif isinstance(b, ast.Attribute):
+                    emit(t, b, b.attr, "AugIndex" if aug else "AttrIndex", text)
+                else:
+                    x, attr = b, ""
+                    while isinstance(x, ast.Subscript):
+                        x = x.value
+                    if isinstance(x, ast.Attribute):
+                        attr = x.attr
+                    emit(t, b, attr, "AugIndex" if aug else ("AttrIndex" if attr else "Index"), text)
+        for n in fn.augnames:
+            # x += v on a local that aliases a reported root: in-place for lists / arrays
+            kind, owner = self.scope_of(fn, n.id)
+            if kind == "global" or kind == "local":
+                emit(n, n, "", "MutCall", n.id + " (aug)=")
+        for c in fn.calls:
+            f = c.func
+            text = unparse(c)
+            if isinstance(f, ast.Name) and f.id in ("setattr", "delattr") and self.scope_of(fn, f.id)[0] == "builtin":
+                if not c.args:
+                    raise TranslatorError("%s: %s() without arguments (line %d)" % (fn.where(), f.id, c.lineno))
+                self.check_dict_write(fn, c.args[0], c)
+                a = c.args[1] if len(c.args) > 1 else None
+                attr = a.value if isinstance(a, ast.Constant) and isinstance(a.value, str) else ""
+                emit(c, c.args[0], attr, "SetAttr", text)
+                continue
+            for k in c.keywords:
+                if k.arg == "out":
+                    emit(c, k.value, "", "MutCall", text)
+            if isinstance(f, ast.Attribute):
+                recv = f.value
+                if self.external_module_root(fn, recv) and isinstance(recv, ast.Name):
+                    # library function np.f(x, ...)
+                    if f.attr in FUNC_MUTATORS and c.args:
+                        emit(c, c.args[0], "", "MutCall", text)
+                    if f.attr in GLOBAL_STATE_FUNCS:
+                        emit(c, recv, f.attr, "MutCall", text)
+                    continue
+                if self.external_module_root(fn, recv):
+                    # np.random.shuffle(x), sys.path.append(x), os.environ.update(...)
+                    if f.attr in FUNC_MUTATORS and c.args:
+                        emit(c, c.args[0], "", "MutCall", text)
+                    if f.attr in GLOBAL_STATE_FUNCS or f.attr in MUTATING_METHODS or f.attr in SETATTR_METHODS:
+                        emit(c, recv, recv.attr if isinstance(recv, ast.Attribute) else "", "MutCall", text)
+                    continue
+                inplace = any(k.arg == "inplace" and not (isinstance(k.value, ast.Constant) and k.value.value is False)
+                              for k in c.keywords)
+                if f.attr in SETATTR_METHODS:
+                    self.check_dict_write(fn, recv, c)
+                    a = c.args[0] if c.args else None
+                    attr = a.value if isinstance(a, ast.Constant) and isinstance(a.value, str) else ""
+                    emit(c, recv, attr, "SetAttr", text)
+                elif f.attr in MUTATING_METHODS or inplace:
+                    self.check_dict_write(fn, recv, c)
+                    x = recv
+                    while isinstance(x, ast.Subscript) or (isinstance(x, ast.Attribute) and x.attr in LOC_ATTRS):
+                        x = x.value
+                    emit(c, recv, x.attr if isinstance(x, ast.Attribute) else "", "MutCall", text)
+                elif interproc and f.attr in self.methods:
+                    # package method that writes through self
+                    if any(m.pos_params and m.pos_params[0] in m.mut_params and not m.qual.endswith(".__init__")
+                           for m in self.methods[f.attr]):
+                        x = recv
+                        emit(c, recv, x.attr if isinstance(x, ast.Attribute) else "", "MutCall", text)
+            if interproc:
+                r = self.callee(fn, c)
+                if r[0] == "pkg":
+                    _, cands, recv = r
+                    for cal in cands:
+                        am = self.arg_map(fn, c, cal, recv)
+                        if am is None:
+                            if cal.mut_params:
+                                for a in list(c.args) + [k.value for k in c.keywords]:
+                                    emit(c, a, "", "MutCall", text)
+                            continue
+                        for p in sorted(cal.mut_params):
+                            if cal.is_method and cal.pos_params and p == cal.pos_params[0]:
+                                continue   # receiver handled above
+                            for a in am.get(p, []):
+                                emit(c, a, "", "MutCall", text)
+                elif r[0] == "ctor":
+                    for cb in r[1]:
+                        for ini in [x for x in cb.mod.fns if x.qual == cb.qual + ".__init__" and x.is_method]:
+                            am = self.arg_map(fn, c, ini, None)
+                            if am is None:
+                                if ini.mut_params - {ini.pos_params[0]}:
+                                    for a in list(c.args) + [k.value for k in c.keywords]:
+                                        emit(c, a, "", "MutCall", text)
+                                continue
+                            for p in sorted(ini.mut_params):
+                                if p == ini.pos_params[0]:
+                                    continue
+                                for a in am.get(p, []):
+                                    emit(c, a, "", "MutCall", text)
+                # a callable held in a variable: nothing is known about its effects (documented limitation)
+        rows.sort(key=lambda r: (r[0], r[1], KIND_ORDER.index(r[4]), r[2], r[3], r[6]))
+        seen, out = set(), []
+        for (ln, col, root, attr, kind, text, prov) in rows:
+            key = (ln, col, root, attr, kind, prov)
+            if key in seen:
+                continue
+            seen.add(key)
+            out.append((root, attr, kind, text, prov))
+        return out
+
+
+def is_mask_index(s):
+    """x[<comparison>] / x[(a > b) & (c < d)] / x[~(a > b)]: boolean-mask (advanced) indexing yields a copy"""
+    if isinstance(s, ast.Compare):
+        return True
+    if isinstance(s, ast.BoolOp):
+        return all(is_mask_index(v) for v in s.values)
+    if isinstance(s, ast.BinOp) and isinstance(s.op, (ast.BitAnd, ast.BitOr, ast.BitXor)):
+        return is_mask_index(s.left) and is_mask_index(s.right)
+    if isinstance(s, ast.UnaryOp) and isinstance(s.op, (ast.Invert, ast.Not)):
+        return is_mask_index(s.operand)
+    return False
+
+
+def is_mutable_value(v):
+    """list/dict/set display, comprehension or call - also below an arithmetic operator ([0.1] * 12)"""
+    if isinstance(v, (ast.List, ast.Dict, ast.Set, ast.ListComp, ast.DictComp, ast.SetComp, ast.Call)):
+        return True
+    if isinstance(v, ast.BinOp):
+        return is_mutable_value(v.left) or is_mutable_value(v.right)
+    if isinstance(v, ast.IfExp):
+        return is_mutable_value(v.body) or is_mutable_value(v.orelse)
+    return False
+
+
+def is_immutable_default(v):
+    """provably immutable default value: constants, signed constants, arithmetic on them, tuples of them"""
+    if isinstance(v, ast.Constant):
+        return True
+    if isinstance(v, ast.UnaryOp) and isinstance(v.op, (ast.USub, ast.UAdd, ast.Not)):
+        return is_immutable_default(v.operand)
+    if isinstance(v, ast.Tuple):
+        return all(is_immutable_default(x) for x in v.elts)
+    if isinstance(v, ast.BinOp):
+        return is_immutable_default(v.left) and is_immutable_default(v.right)
+    return False
+
+
+_PKG_CACHE = {}
+
+
+def package():
+    if "p" not in _PKG_CACHE:
+        p = Package()
+        p.rounds = p.solve()
+        _PKG_CACHE["p"] = p
+    return _PKG_CACHE["p"]
+
+
+def store_sites():
+    p = package()
+    rows = []
+    for mname in sorted(p.mods):
+        m = p.mods[mname]
+        for fn in m.fns:
+            for (root, attr, kind, text, prov) in p.sites_of(fn):
+                rows.append((m.name, fn.qual, root, attr, kind, text, prov))
+    mlm = []
+    for mname in sorted(p.mods):
+        m = p.mods[mname]
+        seen = set()
+        for (name, value, _ln) in m.assigned:
+            if value is not None and is_mutable_value(value) and name not in seen:
+                seen.add(name)
+                mlm.append((m.name, name))
+        # class-level attributes bound to displays / calls are process-global objects too
+        for fn in m.fns:
+            if fn.is_classbody:
+                for st in fn.node.body:
+                    if isinstance(st, (ast.Assign, ast.AnnAssign)) and st.value is not None and is_mutable_value(st.value):
+                        for t in (st.targets if isinstance(st, ast.Assign) else [st.target]):
+                            if isinstance(t, ast.Name):
+                                mlm.append((m.name, fn.qual + "." + t.id))
+    mdef = []
+    esc = []
+    for mname in sorted(p.mods):
+        m = p.mods[mname]
+        for fn in m.fns:
+            if fn.is_module or fn.is_classbody:
+                continue
+            a = fn.node.args
+            pos = a.posonlyargs + a.args
+            mine = []
+            for arg, d in zip(pos[len(pos) - len(a.defaults):], a.defaults):
+                if not is_immutable_default(d):
+                    mine.append(arg.arg)
+            for arg, d in zip(a.kwonlyargs, a.kw_defaults):
+                if d is not None and not is_immutable_default(d):
+                    mine.append(arg.arg)
+            for x in mine:
+                mdef.append((m.name, fn.qual, x))
+            # where does such a parameter's object escape to (x.attr = <param or part/alias of it>)
+            for (t, _aug, value) in fn.stores:
+                if value is None or not isinstance(t, ast.Attribute):
+                    continue
+                direct = {u[2:] for u in p.src_expr(fn, value) if u.startswith("P:")}
+                for x in mine:
+                    if x in direct:
+                        esc.append((m.name, fn.qual, x, t.attr))
+    # every module-level name of every scanned module (for no_store_on_module_globals)
+    mnames = []
+    for mname in sorted(p.mods):
+        for n in sorted(p.mods[mname].names):
+            mnames.append((mname, n))
+
+    out = ["(* GENERATED by harness/gen_facts.py from the source text of aquacrop/core.py and",
+           "   aquacrop/{entities,entities/crops,initialize,solution,timestep,utils}/*.py. DO NOT EDIT.",
+           "   One row per syntactic store and per reported root: (module, function, root, attribute, kind).",
+           "   The alias rules are documented in gen_facts.py (section `Store sites`). *)",
+           "From Coq Require Import String List Bool.", "Import ListNotations.", "Local Open Scope string_scope.", "",
+           "Inductive store_kind := Attr | Index | AttrIndex | AugAttr | AugIndex | LocIndex | SetAttr | MutCall.", "",
+           "Definition store_sites : list (string * string * string * string * store_kind) := ["]
+    body = []
+    for i, (mn, fq, root, attr, kind, text, prov) in enumerate(rows):
+        sep = ";" if i + 1 < len(rows) else ""
+        body.append("  (%s, %s, %s, %s, %s)%s (* %s *)" % (coq_str(mn), coq_str(fq), coq_str(root), coq_str(attr), kind, sep,
+                                                          comment_safe(text)))
+    out += body
+    out += ["].", "", "Definition store_site_count : nat := %d." % len(rows), ""]
+    grows = [r for r in rows if r[6] == "G"]
+    out.append("(* the rows of store_sites whose root is a MODULE-LEVEL name (not a parameter / alias of a parameter) *)")
+    out.append("Definition global_store_sites : list (string * string * string * string * store_kind) := [")
+    out.append(";\n".join("  (%s, %s, %s, %s, %s) (* %s *)" % (coq_str(mn), coq_str(fq), coq_str(root), coq_str(attr), kind,
+                                                              comment_safe(text))
+                          for (mn, fq, root, attr, kind, text, prov) in grows))
+    out += ["].", ""]
+    out.append("(* module-level names (and Class.attribute for class-level attributes) bound to list/dict/set displays,")
+    out.append("   comprehensions or calls *)")
+    out.append("Definition module_level_mutables : list (string * string) := [")
+    out.append(";\n".join("  (%s, %s)" % (coq_str(a), coq_str(b)) for (a, b) in mlm))
+    out += ["].", ""]
+    out.append("(* (module, function, parameter) whose default value is not provably immutable (i.e. anything but constants,")
+    out.append("   signed constants, arithmetic on constants and tuples of those): displays, [x] * n, calls, names, attributes *)")
+    out.append("Definition mutable_defaults : list (string * string * string) := [")
+    out.append(";\n".join("  (%s, %s, %s)" % (coq_str(a), coq_str(b), coq_str(c)) for (a, b, c) in mdef))
+    out += ["].", ""]
+    out.append("(* (module, function, parameter, attribute): `<obj>.attribute = <the parameter's object>` for a parameter of")
+    out.append("   mutable_defaults, i.e. the attribute under which a default-argument object can be reached afterwards *)")
+    out.append("Definition default_escapes : list (string * string * string * string) := [")
+    out.append(";\n".join("  (%s, %s, %s, %s)" % (coq_str(a), coq_str(b), coq_str(c), coq_str(d)) for (a, b, c, d) in uniq(esc)))
+    out += ["].", ""]
+    out.append("(* every module-level name (imports, defs, classes, assigned names) of every scanned module *)")
+    out.append("Definition module_level_names : list (string * string) := [")
+    out.append(";\n".join("  (%s, %s)" % (coq_str(a), coq_str(b)) for (a, b) in mnames))
+    out += ["].", ""]
+    out.append("Definition scanned_modules : list string := [")
+    out.append(";\n".join("  " + coq_str(mn) for mn in sorted(p.mods)))
+    out += ["].", ""]
+    return "\n".join(out), {"store_sites": len(rows), "module_level_mutables": len(mlm), "mutable_defaults": len(mdef), "default_escapes": len(uniq(esc)),
+                            "module_level_names": len(mnames), "global_store_sites": len(grows), "modules": len(p.mods), "functions": len(p.fns),
+                            "fixpoint_rounds": p.rounds}
+
+
+GENERATORS = {"CropCatalogue.v": crop_catalogue, "StateFields.v": state_fields, "StoreSites.v": store_sites}
+
+
+def main(argv=None):
+    argv = list(sys.argv[1:] if argv is None else argv)
+    out_dir = OUT
+    only = None
+    while argv:
+        a = argv.pop(0)
+        if a == "--out":
+            if not argv:
+                print("TRANSLATOR-ERROR: --out needs a directory")
+                sys.exit(2)
+            out_dir = argv.pop(0)
+        elif a == "--only":
+            only = argv.pop(0).split(",")
+        else:
+            print("TRANSLATOR-ERROR: unknown argument %s" % a)
+            sys.exit(2)
+    os.makedirs(out_dir, exist_ok=True)
     stats = {}
     try:
+        texts = {}
         for fn, g in GENERATORS.items():
+            if only is not None and fn not in only:
+                continue
             text, st = g()
             stats[fn] = st
-            p = os.path.join(OUT, fn)
+            texts[fn] = text
+        # nothing is written unless every table translated
+        for fn, text in texts.items():
+            p = os.path.join(out_dir, fn)
             old = open(p).read() if os.path.exists(p) else None
             if old != text:
                 with open(p, "w") as f:
                     f.write(text)
                 stats[fn]["rewritten"] = True
-    except (TranslatorError, SyntaxError, OSError) as e:
+    except (TranslatorError, SyntaxError, OSError, RecursionError) as e:
         print("TRANSLATOR-ERROR: %s" % e)
         sys.exit(2)
     print(json.dumps(stats))
